@@ -233,6 +233,7 @@ func (e *Engine) buildSMT(ob *Obligation) string {
 		}
 	}
 	unf := e.unfoldSpecs(roots, e.fuel)
+	unf = append(unf, e.contentCongruence(roots)...)
 	typed := append([]*Term{}, all...) // byte typing facts: for the query proper, not for the unfolded definitions
 	all = append(all, unf...)
 	bg := e.backgroundAxioms(all, ob.Mode, typed)
